@@ -9,7 +9,9 @@
    Side conditions: [screen_wf] (every constructed screen), [view_ok] (every constructed view). *)
 From Coq Require Import ZArith List Bool Arith Lia ZifyBool.
 From Batchie Require Import Lib.Sexp Lib.PyRt Model.Encode Model.Screen Model.Views Generated.SrcViews Generated.SrcPlates
-  Proofs.PyRtLemmas Proofs.C01Sort Proofs.C14Defs Proofs.C14Lists Proofs.C14Views Proofs.C14Source Proofs.C14SourceHelpers.
+  Proofs.PyRtLemmas Proofs.C01Sort Proofs.C14Defs Proofs.C14Lists Proofs.C14Views
+  Proofs.C14Source_GetPlate Proofs.C14Source_Plates
+  Proofs.C14SourceHelpers_Base Proofs.C14SourceHelpers_PlateId Proofs.C14SourceHelpers_PlateName Proofs.C14SourceHelpers_ViewObserved.
 From Batchie Require Model.Scores.
 Import ListNotations.
 Open Scope nat_scope.
@@ -112,7 +114,7 @@ Qed.
 Theorem src_view_is_observed_is_scores : forall (pid : Z) (v : view), screen_wf (v_parent v) -> view_ok v ->
   src_view_is_observed v = Ok (Scores.is_observed (sc_plate pid v)).
 Proof.
-  intros pid v Hwf Hok. rewrite (proj1 (proj2 (src_view_props_are_model v))). f_equal.
+  intros pid v Hwf Hok. rewrite src_view_is_observed_is_model. f_equal.
   unfold view_is_observed, view_mask, Scores.is_observed, sc_plate. cbn [Scores.p_rows].
   rewrite (sc_subset_positions v Hwf Hok), forallb_map. cbn [snd sc_row Scores.r_obs].
   fold (screen_mask (v_parent v)).
